@@ -426,7 +426,47 @@ def rule_n6(F):
     return r
 
 
+def rule_n7(F):
+    """Delegation is total.  A built-in that is defined AS the standard-library operation of the same name (RotoString::to_lowercase
+    -> str::to_lowercase, StringBytes::len -> str::len ..) agrees with it on every argument only if every value it returns comes
+    from that call.  An extra exit that answers by itself ("nothing to convert, return the string as it is") is a second, hand-made
+    definition of the operation for some arguments - `to_lowercase` of a string whose only cased letters are titlecase (U+01C5) is
+    where the two differ."""
+    r = RuleResult("C17.N7", "a built-in that wraps the std operation of the same name returns, on every exit, a value derived from that call", floor=12)
+    for b in F.all_bodies():
+        if not b.mir or "{closure" in b.path or "::tests::" in b.path or not b.path.startswith("value::string::"):
+            continue
+        nm = hir.last(b.path)
+        dels = {bi for bi, t in mir.calls(b) if hir.last(mir.callee_def(t) or "") == nm and not F.has(mir.callee(t) or "") and (mir.callee(t) or mir.callee_def(t)) != b.path
+                and "convert::From" not in (mir.callee_def(t) or "")}
+        if not dels:
+            continue
+        defs = mir.Defs(b)
+        r.inst(b.path, {"fn": b.path, "delegates_to": sorted({mir.callee(b.blocks[x]["term"]) or mir.callee_def(b.blocks[x]["term"]) for x in dels})[:2]})
+        for d in defs.defs.get(0, []):
+            if d[2] == "call":
+                ok = d[0] in dels or any(mir.is_place_op(a) and (mir.back_calls(b, defs, a[1][0]) & dels) for a in d[3].get("args") or [])
+                line = d[3].get("line")
+                what = "the result of " + hir.last(mir.callee(d[3]) or mir.callee_def(d[3]) or "?")
+            else:
+                srcs = set()
+                for x in mir.rv_locals(d[3]["rv"]):
+                    srcs |= mir.back_calls(b, defs, x)
+                ok = bool(srcs & dels)
+                line = d[3].get("line")
+                what = "a value built from %s" % (sorted(hir.last(mir.callee(b.blocks[x]["term"]) or "?") for x in srcs)[:3] or "constants / its arguments")
+                # None / false answers of Option / bool wrappers are range guards decided elsewhere (N5)
+                rv = d[3]["rv"]
+                if rv["k"] == "agg" and rv.get("variant") == "None":
+                    ok = True
+            if not ok:
+                r.bad(b.path, "exit that does not come from the delegated call", relfile(b.file), line or b.line,
+                      "%s wraps %s::%s but can also return %s: for the arguments that take this exit the built-in is defined by hand, not by the standard operation it documents "
+                      "(e.g. a 'nothing to do' shortcut decided with a different predicate than the operation itself uses)" % (hir.last(b.path), "std", nm, what))
+    return r
+
+
 def rules(ctx):
     F = ctx["F"]
     regs = registrations(F)
-    return [rule_n1(F, regs), rule_n2(F), rule_n3(F, regs), rule_n4(F, regs), rule_n5(F), rule_n6(F)]
+    return [rule_n1(F, regs), rule_n2(F), rule_n3(F, regs), rule_n4(F, regs), rule_n5(F), rule_n6(F), rule_n7(F)]
